@@ -14,7 +14,7 @@ def cases(tier, seed):
     out = []; n = 0
     def add(text, tags=()):
         nonlocal n; n += 1
-        out.append({'id': 'c%d' % n, 'kind': 'eval', 'expr': text, 'input': rng.choice([None, 5, {'a': 1}, [1, 2]]), 'tags': ['jsonself'] + list(tags)})
+        out.append({'id': 'c%d' % n, 'kind': 'eval', 'expr': text, 'input': rng.choice([None, 5, {'a': 1}, [1, 2], [], [[]], {}, '']), 'tags': ['jsonself'] + list(tags)})
         n += 1
         out.append({'id': 'p%d' % n, 'kind': 'parse', 'expr': text.encode('utf-8', 'surrogatepass').hex(), 'tags': ['parse'] + list(tags)})
     # exhaustive strings of up to 2 (quick) / 3 (thorough) units
